@@ -234,7 +234,10 @@ func (c *Ctx) Violation(key string, witness any, format string, args ...any) {
 	}
 	c.violKeys[key]++
 	c.violations++
-	if c.violKeys[key] > 3 || c.violations > 25 { // cap witnesses per key
+	c.counters["violations:"+key]++
+	// witnesses: at most 3 per key; after 25 violations only the FIRST occurrence
+	// of each new key is still written (so a flooding key cannot hide others)
+	if c.violKeys[key] > 3 || (c.violations > 25 && c.violKeys[key] > 1) || len(c.violKeys) > 300 {
 		return
 	}
 	dir := filepath.Join(OutRoot(), "replays", c.ID)
